@@ -9,20 +9,100 @@ import (
 	"errors"
 	"testing"
 
+	"github.com/go-sql-driver/mysql"
 	"github.com/gotid/god/internal/verifdrv"
+	"github.com/gotid/god/lib/breaker"
+	"github.com/gotid/god/lib/logx"
 )
+
+// verifC01Err: error class -> error value: 0 nil | 1 sql.ErrNoRows | 2 sql.ErrTxDone | 3 context.Canceled |
+// 8 a MySQL error the driver option does not accept | 9 MySQL duplicate entry (accepted by NewMySQL's option) |
+// otherwise another error
+var verifC01Other = errors.New("verif other")
+
+func verifC01Err(class int64) error {
+	switch class {
+	case 0:
+		return nil
+	case 1:
+		return sql.ErrNoRows
+	case 2:
+		return sql.ErrTxDone
+	case 3:
+		return context.Canceled
+	case 8:
+		return &mysql.MySQLError{Number: 1000, Message: "verif"}
+	case 9:
+		return &mysql.MySQLError{Number: duplicateEntryCode, Message: "verif"}
+	}
+	return verifC01Other
+}
+
+// verifC01Site: 200 calls of one method of a commonConn (fresh public breaker, as NewConn builds it; "mysql": with
+// NewMySQL's accept option) whose connection provider fails with the error of the class: every call site hands the
+// error to brk.DoWithAcceptable(..., db.acceptable).  site 0 ExecCtx | 1 PrepareCtx | 2 QueryRowCtx | 3 QueryRowsCtx |
+// 4 QueryRowPartialCtx | 5 QueryRowsPartialCtx | 6 TransactCtx.  "ok" iff no call was cut off by the breaker.
+func verifC01Site(site, class int64, useMySQL bool) any {
+	reached := 0
+	e := verifC01Err(class)
+	db := &commonConn{
+		brk:      breaker.New(),
+		provider: func() (*sql.DB, error) { reached++; return nil, e },
+		onError:  func(error) {},
+		beginTx:  begin,
+	}
+	if useMySQL {
+		withMySQLAcceptable()(db)
+	}
+	dropped, same := 0, 0
+	ctx := context.Background()
+	for i := 0; i < 200; i++ {
+		before := reached
+		var err error
+		var v struct{ A int }
+		var vs []struct{ A int }
+		switch site {
+		case 0:
+			_, err = db.ExecCtx(ctx, "select 1")
+		case 1:
+			_, err = db.PrepareCtx(ctx, "select 1")
+		case 2:
+			err = db.QueryRowCtx(ctx, &v, "select 1")
+		case 3:
+			err = db.QueryRowsCtx(ctx, &vs, "select 1")
+		case 4:
+			err = db.QueryRowPartialCtx(ctx, &v, "select 1")
+		case 5:
+			err = db.QueryRowsPartialCtx(ctx, &vs, "select 1")
+		default:
+			err = db.TransactCtx(ctx, func(context.Context, Session) error { return nil })
+		}
+		if reached == before && err == breaker.ErrServiceUnavailable {
+			dropped++
+		} else if err == e {
+			same++
+		}
+	}
+	return map[string]any{"ok": dropped == 0, "dropped": dropped, "same": same}
+}
 
 // TestVerifDriverC01: {"arg": e} -> commonConn.acceptable(err) with e: 0 nil, 1 sql.ErrNoRows,
 // 2 sql.ErrTxDone, 3 context.Canceled, 5 another error; arg+10: same with a user accept
 // predicate that accepts nothing.
 func TestVerifDriverC01(t *testing.T) {
+	logx.Disable()
 	other := errors.New("verif other")
 	verifdrv.Run(t, func(raw json.RawMessage) any {
 		var c struct {
-			Arg int64 `json:"arg"`
+			Arg   int64  `json:"arg"`
+			Site  *int64 `json:"site"`
+			MySQL bool   `json:"mysql"`
 		}
 		if err := json.Unmarshal(raw, &c); err != nil {
 			return map[string]any{"error": err.Error()}
+		}
+		if c.Site != nil {
+			return verifC01Site(*c.Site, c.Arg, c.MySQL)
 		}
 		db := &commonConn{}
 		if c.Arg >= 10 {
